@@ -11,7 +11,8 @@ RULE = ('specification graphs of 3-10 nodes of mixed kinds (InterfaceClass, '
         'class specification, instance Provides, ClassProvides, Declaration, '
         'Specification) plus the root; histories (<=12) of __bases__ '
         'reassignment at any node (new bases among the nodes that do not '
-        'reach it; same / reversed / rotated lists too), dropping a leaf + '
+        'reach it; same / reversed / rotated lists too), re-bases made by a '
+        'subscribed dependent while another re-base propagates, dropping a leaf + '
         'gc, and queries between mutations; oracle = DFS reachability and a '
         'freshly built twin graph of the same shape (answers and '
         '__sro__/__iro__ sequences); non-trivial = a rebase flips the '
@@ -26,7 +27,7 @@ ATHERIS = [{'impl': 'py', 'n': 30000, 'name': 'py-atheris'},
            {'impl': 'c', 'n': 30000, 'name': 'c-atheris'}]
 
 def configs(tier, seed):
-    n = 900 if tier == 'quick' else 15000
+    n = 1500 if tier == 'quick' else 20000
     return [{'name': impl + '-rebase', 'impl': impl, 'mode': 'hyp', 'n': n}
             for impl in ('c', 'py')]
 
@@ -48,7 +49,8 @@ def case_strategy(draw):
     ops = []
     for _ in range(draw(st.integers(1, 12))):
         k = draw(st.sampled_from(['rebase'] * 6 + ['mode', 'mode', 'drop',
-                                                   'query', 'empty']))
+                                                   'query', 'empty',
+                                                   'watch']))
         if k == 'rebase':
             ops.append(['rebase', draw(st.integers(0, 30)),
                         draw(st.lists(st.integers(0, 30), min_size=1,
@@ -59,6 +61,14 @@ def case_strategy(draw):
                                               'clear']))])
         elif k == 'drop':
             ops.append(['drop', draw(st.integers(0, 30))])
+        elif k == 'watch':
+            # a dependent (public subscribe()/changed() protocol) that, the
+            # first time the watched node changes, re-bases another node:
+            # a reassignment made while another one is still propagating
+            ops.append(['watch', draw(st.integers(0, 30)),
+                        draw(st.integers(0, 30)),
+                        draw(st.lists(st.integers(0, 30), min_size=1,
+                                      max_size=2))])
         elif k == 'query':
             ops.append(['query'])
         else:
@@ -218,6 +228,36 @@ def run_case(case, cfg, out):
     if not check_all('built'):
         return
 
+    watchers = []       # kept alive: dependents are weakly referenced
+
+    def pick_bases(i, picks):
+        live = sorted(alive)
+        desc = models.descendants(bases, i)
+        cands = [j for j in live if j not in desc and (
+            kinds[j] == 'I' if kinds[i] == 'I' else kinds[j] in 'ICDS')]
+        nb = []
+        for x in picks:
+            if cands:
+                c = cands[x % len(cands)]
+                if c not in nb:
+                    nb.append(c)
+        return nb
+
+    class Watcher:
+        def __init__(self, target, picks):
+            self.target, self.picks, self.fired = target, picks, False
+
+        def changed(self, originally_changed):
+            if self.fired or self.target not in alive:
+                return
+            self.fired = True
+            # the model already holds the bases of the assignment that is
+            # propagating (they were stored before it started)
+            nb = pick_bases(self.target, self.picks)
+            bases[self.target] = nb
+            out.tag('nested_rebase')
+            W.spec[self.target].__bases__ = tuple(W.spec[b] for b in nb)
+
     for k, op in enumerate(case['ops']):
         kind = op[0]
         live = sorted(alive)
@@ -226,6 +266,15 @@ def run_case(case, cfg, out):
         if kind == 'query':
             if not check_all('query %d' % k):
                 return
+            continue
+        if kind == 'watch':
+            i = live[op[1] % len(live)]
+            # prefer to re-base something above the watched node's new
+            # surroundings: any live node will do, cycles are excluded when
+            # the watcher fires
+            w = Watcher(live[op[2] % len(live)], op[3])
+            watchers.append(w)
+            W.spec[i].subscribe(w)
             continue
         if kind in ('rebase', 'mode'):
             # aim at nodes that have dependents two levels down
